@@ -25,44 +25,79 @@ fn any_d() -> u8 {
 type Cnt = [[u8; D]; D];
 
 fn cnt_add(a: &Cnt, b: &Cnt) -> Cnt {
-   let mut r = [[0u8; D]; D];
-   for k in 0..D {
-      for v in 0..D {
-         r[k][v] = a[k][v] + b[k][v];
-      }
-   }
-   r
+   [
+      [a[0][0] + b[0][0], a[0][1] + b[0][1], a[0][2] + b[0][2]],
+      [a[1][0] + b[1][0], a[1][1] + b[1][1], a[1][2] + b[1][2]],
+      [a[2][0] + b[2][0], a[2][1] + b[2][1], a[2][2] + b[2][2]],
+   ]
 }
 
+/// number of keys with at least one value
 fn cnt_keys(a: &Cnt) -> usize {
-   let mut n = 0;
-   for k in 0..D {
-      if a[k][0] + a[k][1] + a[k][2] > 0 {
-         n += 1;
-      }
-   }
-   n
+   (a[0][0] + a[0][1] + a[0][2] > 0) as usize
+      + (a[1][0] + a[1][1] + a[1][2] > 0) as usize
+      + (a[2][0] + a[2][1] + a[2][2] > 0) as usize
 }
 
 // ------------------------------------------------------------------ RelIndexType1 (hash-vector)
+//
+// The harnesses over this type are written without loops of their own (slots, lookups and
+// iteration steps are spelled out), so that the unwinding bound only has to cover the loops of
+// the code under test: every extra unwinding of the merge loop multiplies the formula (measured:
+// the 1+1 merge takes 35 s at unwind 2 and exhausts 14 GB at unwind 4).
 
 type Ix1 = RelIndexType1<(u8,), (u8,)>;
-
-fn fill_ix1<const N: usize>(ix: &mut Ix1) -> Cnt {
-   let mut cnt = [[0u8; D]; D];
-   for _ in 0..N {
-      if kani::any() {
-         let (k, v) = (any_d(), any_d());
-         ix.index_insert((k,), (v,));
-         cnt[k as usize][v as usize] += 1;
-      }
-   }
-   cnt
-}
 
 fn row_total(c: &Cnt, k: usize) -> u8 { c[k][0] + c[k][1] + c[k][2] }
 
 fn row_eq(a: &[u8; D], b: &[u8; D]) -> bool { a[0] == b[0] && a[1] == b[1] && a[2] == b[2] }
+
+/// one insert slot: used or not, key and value symbolic
+fn ix1_slot(ix: &mut Ix1, cnt: &mut Cnt) {
+   if kani::any() {
+      let (k, v) = (any_d(), any_d());
+      ix.index_insert((k,), (v,));
+      cnt[k as usize][v as usize] += 1;
+   }
+}
+
+fn fill_ix1<const N: usize>(ix: &mut Ix1) -> Cnt {
+   let mut cnt = [[0u8; D]; D];
+   if N > 0 {
+      ix1_slot(ix, &mut cnt);
+   }
+   if N > 1 {
+      ix1_slot(ix, &mut cnt);
+   }
+   if N > 2 {
+      ix1_slot(ix, &mut cnt);
+   }
+   assert!(N <= 3);
+   cnt
+}
+
+/// multiset of up to 4 values, without a loop
+fn tally(s: &[(u8,)]) -> [u8; D] {
+   let mut got = [0u8; D];
+   assert!(s.len() <= 4);
+   if s.len() > 0 {
+      assert!((s[0].0 as usize) < D);
+      got[s[0].0 as usize] += 1;
+   }
+   if s.len() > 1 {
+      assert!((s[1].0 as usize) < D);
+      got[s[1].0 as usize] += 1;
+   }
+   if s.len() > 2 {
+      assert!((s[2].0 as usize) < D);
+      got[s[2].0 as usize] += 1;
+   }
+   if s.len() > 3 {
+      assert!((s[3].0 as usize) < D);
+      got[s[3].0 as usize] += 1;
+   }
+   got
+}
 
 /// lookups: `ix` holds exactly the multiset `cnt`, observed at the (symbolic, i.e. every) key `q`
 fn check_ix1_get(ix: &Ix1, cnt: &Cnt, q: u8) {
@@ -71,12 +106,7 @@ fn check_ix1_get(ix: &Ix1, cnt: &Cnt, q: u8) {
       None => assert!(total == 0),
       Some(it) => {
          assert!(total > 0);
-         let mut got = [0u8; D];
-         for v in it {
-            assert!((v.0 as usize) < D);
-            got[v.0 as usize] += 1;
-         }
-         assert!(row_eq(&got, &cnt[q as usize]));
+         assert!(row_eq(&tally(it.as_slice()), &cnt[q as usize]));
       },
    }
    let nkeys = cnt_keys(cnt);
@@ -87,19 +117,23 @@ fn check_ix1_get(ix: &Ix1, cnt: &Cnt, q: u8) {
 /// iteration: every key with at least one value exactly once, with exactly its values
 fn check_ix1_iter(ix: &Ix1, cnt: &Cnt, q: u8) {
    let (mut seen, mut seen_q) = (0usize, 0u8);
-   for (k, vals) in ix.iter_all() {
-      assert!((k.0 as usize) < D);
-      seen += 1;
-      if k.0 == q {
-         seen_q += 1;
-      }
-      let mut got = [0u8; D];
-      for v in vals {
-         assert!((v.0 as usize) < D);
-         got[v.0 as usize] += 1;
-      }
-      assert!(row_eq(&got, &cnt[k.0 as usize]) && row_total(cnt, k.0 as usize) > 0);
+   let mut it = ix.iter_all();
+   macro_rules! step {
+      () => {
+         if let Some((k, vals)) = it.next() {
+            assert!((k.0 as usize) < D);
+            seen += 1;
+            if k.0 == q {
+               seen_q += 1;
+            }
+            assert!(row_eq(&tally(vals.as_slice()), &cnt[k.0 as usize]) && row_total(cnt, k.0 as usize) > 0);
+         }
+      };
    }
+   step!();
+   step!();
+   step!();
+   assert!(it.next().is_none());
    assert!(seen == cnt_keys(cnt) && seen_q == (row_total(cnt, q as usize) > 0) as u8);
 }
 
@@ -110,28 +144,48 @@ fn check_combined_ix1(a: &Ix1, ca: &Cnt, b: &Ix1, cb: &Cnt, q: u8) {
    let total = row_total(&sum, q as usize);
    match comb.index_get(&(q,)) {
       None => assert!(total == 0),
-      Some(it) => {
+      Some(mut it) => {
          assert!(total > 0);
          let mut got = [0u8; D];
-         for v in it {
-            got[v.0 as usize] += 1;
+         macro_rules! step {
+            () => {
+               if let Some(v) = it.next() {
+                  assert!((v.0 as usize) < D);
+                  got[v.0 as usize] += 1;
+               }
+            };
          }
+         step!();
+         step!();
+         step!();
+         step!();
+         assert!(it.next().is_none());
          assert!(row_eq(&got, &sum[q as usize]));
       },
    }
    assert!(comb.len_estimate() == cnt_keys(ca) + cnt_keys(cb));
    assert!(comb.is_empty() == (cnt_keys(ca) + cnt_keys(cb) == 0));
    let (mut seen, mut seen_q, mut vals_q) = (0usize, 0u8, 0usize);
-   for (k, vals) in comb.iter_all() {
-      assert!((k.0 as usize) < D);
-      seen += 1;
-      let n = vals.len();
-      assert!(n > 0);
-      if k.0 == q {
-         seen_q += 1;
-         vals_q += n;
-      }
+   let mut it = comb.iter_all();
+   macro_rules! step {
+      () => {
+         if let Some((k, vals)) = it.next() {
+            assert!((k.0 as usize) < D);
+            seen += 1;
+            let n = vals.len();
+            assert!(n > 0);
+            if k.0 == q {
+               seen_q += 1;
+               vals_q += n;
+            }
+         }
+      };
    }
+   step!();
+   step!();
+   step!();
+   step!();
+   assert!(it.next().is_none());
    assert!(seen == cnt_keys(ca) + cnt_keys(cb));
    assert!(seen_q == (row_total(ca, q as usize) > 0) as u8 + (row_total(cb, q as usize) > 0) as u8);
    assert!(vals_q == total as usize);
@@ -141,9 +195,9 @@ const OBS_GET: u8 = 0;
 const OBS_ITER: u8 = 1;
 const OBS_COMBINED: u8 = 2;
 
-/// `NN`/`ND`/`NT` insert slots for new/delta/total; `OBS` selects what is observed after the
-/// merge (one observation per harness keeps each solver query inside the memory cap).
-fn ix1_body<const NN: usize, const ND: usize, const NT: usize, const OBS: u8>(through_to_rel_index: bool) {
+/// `NN`/`ND`/`NT` insert slots for new/delta/total (at most 4 values in total); `OBS` selects
+/// what is observed after the merge.
+fn ix1_body<const NN: usize, const ND: usize, const NT: usize, const OBS: u8>(through_to_rel_index: bool) -> Ix1Obs {
    let (mut new, mut delta, mut total) = (Ix1::default(), Ix1::default(), Ix1::default());
    let cn = fill_ix1::<NN>(&mut new);
    let cd = fill_ix1::<ND>(&mut delta);
@@ -195,56 +249,62 @@ fn ix1_body<const NN: usize, const ND: usize, const NT: usize, const OBS: u8>(th
    if OBS == OBS_COMBINED {
       check_combined_ix1(total, &ct2, delta, &cn, q);
    }
-   // vacuity witnesses: both outcomes of the size-based swap and of the per-key vector swap
-   // that the instantiation can reach
-   if ND > NT {
-      kani::cover!(dl > tl);
-      kani::cover!(row_total(&cd, 0) > row_total(&ct, 0) && row_total(&ct, 0) > 0);
-   }
-   if ND < NT {
-      kani::cover!(dl < tl);
-      kani::cover!(row_total(&cd, 0) < row_total(&ct, 0) && row_total(&cd, 0) > 0);
-   }
-   if ND == NT {
-      kani::cover!(dl > tl);
-      kani::cover!(dl < tl);
-   }
-   kani::cover!(true);
    std::mem::forget((wn, wd, wt));
+   Ix1Obs { dl, tl, cd, ct }
+}
+
+/// what the vacuity witnesses of a harness may refer to
+pub struct Ix1Obs {
+   dl: usize,
+   tl: usize,
+   cd: Cnt,
+   ct: Cnt,
+}
+
+impl Ix1Obs {
+   fn delta_larger(&self) -> bool { self.dl > self.tl }
+   fn total_larger(&self) -> bool { self.dl < self.tl }
+   /// a key present on both sides: the per-key vectors are appended
+   fn append(&self) -> bool { row_total(&self.cd, 0) > 0 && row_total(&self.ct, 0) > 0 }
+   /// a key of the smaller side missing from the larger: vacant insert
+   fn vacant(&self) -> bool { row_total(&self.cd, 0) > 0 && row_total(&self.ct, 0) == 0 && row_total(&self.ct, 1) > 0 }
+   fn delta_vec_longer(&self) -> bool { row_total(&self.cd, 0) > row_total(&self.ct, 0) && row_total(&self.ct, 0) > 0 }
+   fn total_vec_longer(&self) -> bool { row_total(&self.cd, 0) < row_total(&self.ct, 0) && row_total(&self.cd, 0) > 0 }
 }
 
 macro_rules! ix1_harness {
-   ($name:ident, $nn:literal, $nd:literal, $nt:literal, $obs:ident, $route:literal, $unwind:literal) => {
+   ($name:ident, $nn:literal, $nd:literal, $nt:literal, $obs:ident, $route:literal, $unwind:literal, [$($cover:ident),*]) => {
       #[kani::proof]
       #[kani::unwind($unwind)]
       #[kani::stub(std::time::Instant::now, crate::stubs::instant_now)]
       #[kani::stub(std::time::Instant::elapsed, crate::stubs::instant_elapsed)]
       #[kani::stub(std::mem::swap, crate::stubs::mem_swap)]
       #[kani::stub(alloc::alloc::realloc_nonnull, crate::stubs::realloc_is_out_of_bound)]
-      #[kani::stub(std::vec::Vec::append, crate::stubs::vec_append)]
-      pub fn $name() { ix1_body::<$nn, $nd, $nt, $obs>($route) }
+      pub fn $name() {
+         let o = ix1_body::<$nn, $nd, $nt, $obs>($route);
+         $( kani::cover!(o.$cover()); )*
+         let _ = &o;
+         kani::cover!(true);
+      }
    };
 }
 
-// quick: at most 3 values under one key after the merge (unwind 5 covers every loop);
-// total' = total + delta is checked with `new` empty, delta' = new / new' = {} separately
-ix1_harness!(rel_index_type1_merge_get_d2_t1, 0, 2, 1, OBS_GET, false, 4);
-ix1_harness!(rel_index_type1_merge_get_d1_t2, 0, 1, 2, OBS_GET, false, 4);
-ix1_harness!(rel_index_type1_merge_iter_d2_t1, 0, 2, 1, OBS_ITER, false, 4);
-ix1_harness!(rel_index_type1_merge_iter_d1_t2, 0, 1, 2, OBS_ITER, false, 4);
-ix1_harness!(rel_index_type1_merge_new_to_delta_get, 2, 1, 0, OBS_GET, false, 4);
-ix1_harness!(rel_index_type1_merge_new_to_delta_iter, 2, 1, 0, OBS_ITER, false, 4);
-ix1_harness!(to_rel_index_type_merge_get_d2_t1, 0, 2, 1, OBS_GET, true, 4);
-ix1_harness!(to_rel_index_type_merge_new_to_delta_get, 2, 1, 0, OBS_GET, true, 4);
-// thorough
-ix1_harness!(rel_index_type1_merge_combined_d2_t1_wide, 1, 2, 1, OBS_COMBINED, false, 5);
-ix1_harness!(rel_index_type1_merge_get_n1_d2_t1_wide, 1, 2, 1, OBS_GET, false, 5);
-ix1_harness!(rel_index_type1_merge_get_d2_t2_wide, 0, 2, 2, OBS_GET, false, 6);
+
+/// insert / lookup / iteration without a merge, 3 insert slots
+fn ix1_insert_lookup_body() {
+   let mut ix = Ix1::default();
+   let c = fill_ix1::<3>(&mut ix);
+   let q = any_d();
+   check_ix1_get(&ix, &c, q);
+   check_ix1_iter(&ix, &c, q);
+   kani::cover!(row_total(&c, q as usize) == 3);
+   kani::cover!(cnt_keys(&c) == 3);
+   kani::cover!(true);
+   std::mem::forget(ix);
+}
 
 /// the combined view before any merge (tables filled by inserts only)
-#[kani::proof]
-#[kani::unwind(6)]
-pub fn rel_index_type1_combined() {
+fn ix1_combined_body() {
    let (mut delta, mut total) = (Ix1::default(), Ix1::default());
    let cd = fill_ix1::<2>(&mut delta);
    let ct = fill_ix1::<2>(&mut total);
@@ -260,44 +320,44 @@ pub fn rel_index_type1_combined() {
 type Full2 = RelFullIndexType<(u8, u8), ()>;
 type Set2 = [[bool; D]; D];
 
-/// slots are filled with `index_insert` or `insert_if_not_present` (symbolic choice)
+/// one insert slot, filled with `index_insert` or `insert_if_not_present` (symbolic choice)
+fn full2_slot(ix: &mut Full2, set: &mut Set2) {
+   if kani::any() {
+      let (a, b) = (any_d(), any_d());
+      if kani::any() {
+         ix.index_insert((a, b), ());
+      } else {
+         let fresh = ix.insert_if_not_present(&(a, b), ());
+         assert!(fresh == !set[a as usize][b as usize]);
+      }
+      set[a as usize][b as usize] = true;
+   }
+}
+
 fn fill_full2<const N: usize>(ix: &mut Full2) -> Set2 {
    let mut set = [[false; D]; D];
-   for _ in 0..N {
-      if kani::any() {
-         let (a, b) = (any_d(), any_d());
-         if kani::any() {
-            ix.index_insert((a, b), ());
-         } else {
-            let fresh = ix.insert_if_not_present(&(a, b), ());
-            assert!(fresh == !set[a as usize][b as usize]);
-         }
-         set[a as usize][b as usize] = true;
-      }
+   if N > 0 {
+      full2_slot(ix, &mut set);
    }
+   if N > 1 {
+      full2_slot(ix, &mut set);
+   }
+   assert!(N <= 2);
    set
 }
 
 fn set2_len(s: &Set2) -> usize {
-   let mut n = 0;
-   for a in 0..D {
-      for b in 0..D {
-         if s[a][b] {
-            n += 1;
-         }
-      }
-   }
-   n
+   s[0][0] as usize + s[0][1] as usize + s[0][2] as usize
+      + s[1][0] as usize + s[1][1] as usize + s[1][2] as usize
+      + s[2][0] as usize + s[2][1] as usize + s[2][2] as usize
 }
 
 fn set2_union(x: &Set2, y: &Set2) -> Set2 {
-   let mut r = [[false; D]; D];
-   for a in 0..D {
-      for b in 0..D {
-         r[a][b] = x[a][b] || y[a][b];
-      }
-   }
-   r
+   [
+      [x[0][0] || y[0][0], x[0][1] || y[0][1], x[0][2] || y[0][2]],
+      [x[1][0] || y[1][0], x[1][1] || y[1][1], x[1][2] || y[1][2]],
+      [x[2][0] || y[2][0], x[2][1] || y[2][1], x[2][2] || y[2][2]],
+   ]
 }
 
 /// `ix` is exactly `set`, observed at the (symbolic, i.e. every) key `q`
@@ -315,14 +375,24 @@ fn check_full2(ix: &Full2, set: &Set2, q: (u8, u8)) {
    assert!(RelIndexRead::len_estimate(ix) == n);
    assert!(RelIndexRead::is_empty(ix) == (n == 0));
    let (mut seen_q, mut seen) = (0u8, 0usize);
-   for (k, mut vals) in ix.iter_all() {
-      assert!((k.0 as usize) < D && (k.1 as usize) < D && set[k.0 as usize][k.1 as usize]);
-      seen += 1;
-      if *k == q {
-         seen_q += 1;
-      }
-      assert!(vals.next().is_some() && vals.next().is_none());
+   let mut it = ix.iter_all();
+   macro_rules! step {
+      () => {
+         if let Some((k, mut vals)) = it.next() {
+            assert!((k.0 as usize) < D && (k.1 as usize) < D && set[k.0 as usize][k.1 as usize]);
+            seen += 1;
+            if *k == q {
+               seen_q += 1;
+            }
+            assert!(vals.next().is_some() && vals.next().is_none());
+         }
+      };
    }
+   step!();
+   step!();
+   step!();
+   step!();
+   assert!(it.next().is_none());
    assert!(seen == n && seen_q == present as u8);
 }
 
@@ -331,26 +401,42 @@ fn check_combined_full2(x: &Full2, sx: &Set2, y: &Full2, sy: &Set2, q: (u8, u8))
    let n = (sx[q.0 as usize][q.1 as usize] as usize) + (sy[q.0 as usize][q.1 as usize] as usize);
    match comb.index_get(&q) {
       None => assert!(n == 0),
-      Some(it) => assert!(n > 0 && it.count() == n),
+      Some(mut it) => {
+         let c = it.next().is_some() as usize + it.next().is_some() as usize + it.next().is_some() as usize;
+         assert!(n > 0 && c == n);
+      },
    }
    assert!(comb.len_estimate() == set2_len(sx) + set2_len(sy));
    assert!(comb.is_empty() == (set2_len(sx) + set2_len(sy) == 0));
    let (mut seen_q, mut seen) = (0usize, 0usize);
-   for (k, _vals) in comb.iter_all() {
-      assert!(sx[k.0 as usize][k.1 as usize] || sy[k.0 as usize][k.1 as usize]);
-      seen += 1;
-      if *k == q {
-         seen_q += 1;
-      }
+   let mut it = comb.iter_all();
+   macro_rules! step {
+      () => {
+         if let Some((k, _vals)) = it.next() {
+            assert!(sx[k.0 as usize][k.1 as usize] || sy[k.0 as usize][k.1 as usize]);
+            seen += 1;
+            if *k == q {
+               seen_q += 1;
+            }
+         }
+      };
    }
+   step!();
+   step!();
+   step!();
+   step!();
+   step!();
+   step!();
+   assert!(it.next().is_none());
    assert!(seen == set2_len(sx) + set2_len(sy) && seen_q == n);
 }
 
-fn full2_body<const N: usize>() {
+/// `NN`/`ND`/`NT` insert slots (each <= 2) for new/delta/total
+fn full2_body<const NN: usize, const ND: usize, const NT: usize>() {
    let (mut new, mut delta, mut total) = (Full2::default(), Full2::default(), Full2::default());
-   let sn = fill_full2::<N>(&mut new);
-   let sd = fill_full2::<N>(&mut delta);
-   let st = fill_full2::<N>(&mut total);
+   let sn = fill_full2::<NN>(&mut new);
+   let sd = fill_full2::<ND>(&mut delta);
+   let st = fill_full2::<NT>(&mut total);
    let q = (any_d(), any_d()); // every key
    check_combined_full2(&total, &st, &delta, &sd, q);
    let (dl, tl) = (delta.len(), total.len());
@@ -367,28 +453,284 @@ fn full2_body<const N: usize>() {
    check_combined_full2(&total, &st2, &delta, &sn, q);
    // insert-if-absent on the merged total
    let (a, b) = (any_d(), any_d());
+   let before = total.len();
+   kani::assume(before < 4); // room for one more entry in the table model
    let fresh = total.insert_if_not_present(&(a, b), ());
    assert!(fresh == !st2[a as usize][b as usize]);
    assert!(RelFullIndexRead::contains_key(&total, &(a, b)));
-   assert!(total.len() == set2_len(&st2) + fresh as usize);
+   assert!(total.len() == before + fresh as usize);
    kani::cover!(dl > tl);
    kani::cover!(dl < tl);
    kani::cover!(dl == tl && dl > 0);
    kani::cover!(set2_len(&st2) < dl + tl); // delta and total overlapped
+   kani::cover!(fresh);
    kani::cover!(true);
    std::mem::forget((new, delta, total));
 }
 
-#[kani::proof]
-#[kani::unwind(8)]
-#[kani::stub(std::time::Instant::now, crate::stubs::instant_now)]
-#[kani::stub(std::time::Instant::elapsed, crate::stubs::instant_elapsed)]
-#[kani::stub(std::mem::swap, crate::stubs::mem_swap)]
-pub fn full_index_unit_merge() { full2_body::<2>() }
+macro_rules! table_harness {
+   ($name:ident, $unwind:literal, $body:expr) => {
+      #[kani::proof]
+      #[kani::unwind($unwind)]
+      #[kani::stub(std::time::Instant::now, crate::stubs::instant_now)]
+      #[kani::stub(std::time::Instant::elapsed, crate::stubs::instant_elapsed)]
+      #[kani::stub(std::mem::swap, crate::stubs::mem_swap)]
+      #[kani::stub(alloc::alloc::realloc_nonnull, crate::stubs::realloc_is_out_of_bound)]
+      pub fn $name() { $body }
+   };
+}
 
-#[kani::proof]
-#[kani::unwind(8)]
-#[kani::stub(std::time::Instant::now, crate::stubs::instant_now)]
-#[kani::stub(std::time::Instant::elapsed, crate::stubs::instant_elapsed)]
-#[kani::stub(std::mem::swap, crate::stubs::mem_swap)]
-pub fn full_index_unit_merge_wide() { full2_body::<3>() }
+
+// ------------------------------------------------------------------ RelFullIndexType<(u8,),usize>
+// (the key index of a lattice relation: key -> row number)
+
+type Full1 = RelFullIndexType<(u8,), usize>;
+type Map1 = [Option<usize>; D];
+
+fn full1_slot(ix: &mut Full1, m: &mut Map1) {
+   if kani::any() {
+      let (k, v) = (any_d(), any_d() as usize);
+      if kani::any() {
+         ix.index_insert((k,), v); // overwrites
+         m[k as usize] = Some(v);
+      } else {
+         let fresh = ix.insert_if_not_present(&(k,), v);
+         assert!(fresh == m[k as usize].is_none());
+         if fresh {
+            m[k as usize] = Some(v);
+         }
+      }
+   }
+}
+
+fn map1_len(m: &Map1) -> usize { m[0].is_some() as usize + m[1].is_some() as usize + m[2].is_some() as usize }
+
+/// `ix` has exactly the keys of `a` or `b`; a key maps to its value in `a` or in `b`
+fn check_full1(ix: &Full1, a: &Map1, b: &Map1, q: u8) {
+   let (va, vb) = (a[q as usize], b[q as usize]);
+   let present = va.is_some() || vb.is_some();
+   assert!(RelFullIndexRead::contains_key(ix, &(q,)) == present);
+   match ix.index_get(&(q,)) {
+      None => assert!(!present),
+      Some(mut it) => {
+         let v = it.next();
+         assert!(present && v.is_some() && it.next().is_none());
+         let v = *v.unwrap();
+         assert!(Some(v) == va || Some(v) == vb);
+      },
+   }
+   let n = (a[0].is_some() || b[0].is_some()) as usize
+      + (a[1].is_some() || b[1].is_some()) as usize
+      + (a[2].is_some() || b[2].is_some()) as usize;
+   assert!(RelIndexRead::len_estimate(ix) == n);
+   assert!(RelIndexRead::is_empty(ix) == (n == 0));
+   let (mut seen_q, mut seen) = (0u8, 0usize);
+   let mut it = ix.iter_all();
+   macro_rules! step {
+      () => {
+         if let Some((k, mut vals)) = it.next() {
+            assert!((k.0 as usize) < D);
+            seen += 1;
+            if k.0 == q {
+               seen_q += 1;
+            }
+            let v = vals.next();
+            assert!(v.is_some() && vals.next().is_none());
+            let v = *v.unwrap();
+            assert!(Some(v) == a[k.0 as usize] || Some(v) == b[k.0 as usize]);
+         }
+      };
+   }
+   step!();
+   step!();
+   step!();
+   assert!(it.next().is_none());
+   assert!(seen == n && seen_q == present as u8);
+}
+
+fn full1_body() {
+   let (mut new, mut delta, mut total) = (Full1::default(), Full1::default(), Full1::default());
+   let (mut mn, mut md, mut mt): (Map1, Map1, Map1) = ([None; D], [None; D], [None; D]);
+   full1_slot(&mut new, &mut mn);
+   full1_slot(&mut new, &mut mn);
+   full1_slot(&mut delta, &mut md);
+   full1_slot(&mut delta, &mut md);
+   full1_slot(&mut total, &mut mt);
+   full1_slot(&mut total, &mut mt);
+   let q = any_d();
+   let (dl, tl) = (delta.len(), total.len());
+   RelIndexMerge::merge_delta_to_total_new_to_delta(&mut new, &mut delta, &mut total);
+   check_full1(&total, &mt, &md, q);
+   check_full1(&delta, &mn, &[None; D], q);
+   check_full1(&new, &[None; D], &[None; D], q);
+   assert!(RelIndexCombined::new(&total, &delta).len_estimate() == total.len() + map1_len(&mn));
+   kani::cover!(dl > tl);
+   kani::cover!(dl < tl);
+   kani::cover!(md[0].is_some() && mt[0].is_some() && md[0] != mt[0]); // same key, different rows
+   kani::cover!(true);
+   std::mem::forget((new, delta, total));
+}
+
+
+// ------------------------------------------------------------------ LatticeIndexType<(u8,),usize>
+
+type Lat = LatticeIndexType<(u8,), usize>;
+type LatSet = [[bool; D]; D]; // key x value
+
+fn lat_slot(ix: &mut Lat, s: &mut LatSet) {
+   if kani::any() {
+      let (k, v) = (any_d(), any_d());
+      ix.index_insert((k,), v as usize);
+      s[k as usize][v as usize] = true;
+   }
+}
+
+fn lat_keys(s: &LatSet) -> usize {
+   (s[0][0] || s[0][1] || s[0][2]) as usize + (s[1][0] || s[1][1] || s[1][2]) as usize + (s[2][0] || s[2][1] || s[2][2]) as usize
+}
+
+fn check_lat(ix: &Lat, s: &LatSet, q: u8) {
+   let row = s[q as usize];
+   let present = row[0] || row[1] || row[2];
+   match ix.index_get(&(q,)) {
+      None => assert!(!present),
+      Some(mut it) => {
+         assert!(present);
+         let mut got = [0u8; D];
+         macro_rules! step {
+            () => {
+               if let Some(v) = it.next() {
+                  assert!(*v < D);
+                  got[*v] += 1;
+               }
+            };
+         }
+         step!();
+         step!();
+         step!();
+         assert!(it.next().is_none());
+         assert!(got[0] == row[0] as u8 && got[1] == row[1] as u8 && got[2] == row[2] as u8);
+      },
+   }
+   let n = lat_keys(s);
+   assert!(RelIndexRead::len_estimate(ix) == n);
+   assert!(RelIndexRead::is_empty(ix) == (n == 0));
+   let (mut seen_q, mut seen) = (0u8, 0usize);
+   let mut it = ix.iter_all();
+   macro_rules! kstep {
+      () => {
+         if let Some((k, vals)) = it.next() {
+            assert!((k.0 as usize) < D);
+            seen += 1;
+            if k.0 == q {
+               seen_q += 1;
+            }
+            let r = s[k.0 as usize];
+            assert!(vals.len() == r[0] as usize + r[1] as usize + r[2] as usize && vals.len() > 0);
+         }
+      };
+   }
+   kstep!();
+   kstep!();
+   kstep!();
+   assert!(it.next().is_none());
+   assert!(seen == n && seen_q == present as u8);
+}
+
+fn lat_body() {
+   let (mut new, mut delta, mut total) = (Lat::default(), Lat::default(), Lat::default());
+   let (mut sn, mut sd, mut st): (LatSet, LatSet, LatSet) = ([[false; D]; D], [[false; D]; D], [[false; D]; D]);
+   lat_slot(&mut new, &mut sn);
+   lat_slot(&mut delta, &mut sd);
+   lat_slot(&mut delta, &mut sd);
+   lat_slot(&mut total, &mut st);
+   lat_slot(&mut total, &mut st);
+   let q = any_d();
+   RelIndexMerge::merge_delta_to_total_new_to_delta(&mut new, &mut delta, &mut total);
+   check_lat(&total, &set2_union(&st, &sd), q);
+   check_lat(&delta, &sn, q);
+   check_lat(&new, &[[false; D]; D], q);
+   kani::cover!(sd[0][0] && st[0][1]); // same key, the sets are united
+   kani::cover!(sd[0][0] && st[0][0]); // same key, same row number
+   kani::cover!(lat_keys(&sd) == 2 && lat_keys(&st) == 1);
+   kani::cover!(true);
+   std::mem::forget((new, delta, total));
+}
+
+
+// ------------------------------------------------------------------ RelNoIndexType
+
+fn no_index_body() {
+   let (mut new, mut delta, mut total): (RelNoIndexType, RelNoIndexType, RelNoIndexType) =
+      (Vec::with_capacity(4), Vec::with_capacity(4), Vec::with_capacity(4));
+   let vals: [usize; 6] = kani::any();
+   let used: [bool; 6] = kani::any();
+   macro_rules! slot {
+      ($ix:ident, $i:literal) => {
+         if used[$i] {
+            $ix.index_insert((), vals[$i]);
+         }
+      };
+   }
+   slot!(new, 0);
+   slot!(new, 1);
+   slot!(delta, 2);
+   slot!(delta, 3);
+   slot!(total, 4);
+   slot!(total, 5);
+   RelIndexMerge::merge_delta_to_total_new_to_delta(&mut new, &mut delta, &mut total);
+   // total' = total ++ delta
+   let exp_t = used[4] as usize + used[5] as usize + used[2] as usize + used[3] as usize;
+   assert!(total.len() == exp_t && new.is_empty());
+   let mut i = 0;
+   macro_rules! expect {
+      ($ix:ident, $j:literal) => {
+         if used[$j] {
+            assert!($ix[i] == vals[$j]);
+            i += 1;
+         }
+      };
+   }
+   expect!(total, 4);
+   expect!(total, 5);
+   expect!(total, 2);
+   expect!(total, 3);
+   // delta' = new
+   assert!(delta.len() == used[0] as usize + used[1] as usize);
+   i = 0;
+   expect!(delta, 0);
+   expect!(delta, 1);
+   let _ = i;
+   kani::cover!(exp_t == 4 && delta.len() == 2);
+   kani::cover!(true);
+   std::mem::forget((new, delta, total));
+}
+
+
+// ------------------------------------------------------------------ harnesses
+
+/// quick tier: every type at the smallest bound that reaches each mechanism
+pub mod quick {
+   use super::*;
+   table_harness!(full_index_unit_merge, 3, full2_body::<2, 2, 2>());
+   table_harness!(full_index_usize_merge, 3, full1_body());
+   table_harness!(lattice_index_merge, 3, lat_body());
+   table_harness!(no_index_merge, 7, no_index_body());
+   table_harness!(rel_index_type1_insert_lookup, 2, ix1_insert_lookup_body());
+   table_harness!(rel_index_type1_combined, 2, ix1_combined_body());
+   // the merge loop runs at most once (unwind 2)
+   ix1_harness!(rel_index_type1_merge_get_d1_t1, 0, 1, 1, OBS_GET, false, 2, [append, vacant]);
+   ix1_harness!(rel_index_type1_merge_iter_d1_t1, 0, 1, 1, OBS_ITER, false, 2, [append, vacant]);
+   ix1_harness!(rel_index_type1_merge_new_to_delta, 2, 0, 0, OBS_GET, false, 2, []);
+   ix1_harness!(to_rel_index_type_merge_get_d1_t1, 1, 1, 1, OBS_GET, true, 2, [append, vacant]);
+}
+
+/// thorough tier only
+pub mod wide {
+   use super::*;
+   ix1_harness!(rel_index_type1_merge_combined_d1_t1_wide, 1, 1, 1, OBS_COMBINED, false, 2, [append]);
+   // both outcomes of the size-based swap and of the per-key vector swap need 2 entries against 1;
+   // measured: no verdict within 900 s (Kani 0.68, 8 parallel jobs) -- reported as inconclusive
+   ix1_harness!(rel_index_type1_merge_get_d2_t1_wide, 0, 2, 1, OBS_GET, false, 2, [delta_larger, delta_vec_longer]);
+   ix1_harness!(rel_index_type1_merge_get_d1_t2_wide, 0, 1, 2, OBS_GET, false, 2, [total_larger, total_vec_longer]);
+}
